@@ -13,6 +13,16 @@ use crate::ColumnType;
 
 const RESULTS_DELIMITER: &str = "----";
 
+/// Formats a duration as a single token that `humantime::parse_duration` reads back.
+///
+/// `humantime::format_duration` separates the items by spaces (`1m 30s`), but a duration in a
+/// test file must not contain whitespace.
+fn format_duration(duration: Duration) -> String {
+    humantime::format_duration(duration)
+        .to_string()
+        .replace(' ', "")
+}
+
 /// The location in source file.
 #[derive(Debug, PartialEq, Eq, Clone)]
 pub struct Location {
@@ -236,7 +246,7 @@ impl<T: ColumnType> std::fmt::Display for Record<T> {
                         f,
                         " retry {} backoff {}",
                         retry.attempts,
-                        humantime::format_duration(retry.backoff)
+                        format_duration(retry.backoff)
                     )?;
                 }
                 writeln!(f)?;
@@ -279,7 +289,7 @@ impl<T: ColumnType> std::fmt::Display for Record<T> {
                         f,
                         " retry {} backoff {}",
                         retry.attempts,
-                        humantime::format_duration(retry.backoff)
+                        format_duration(retry.backoff)
                     )?;
                 }
                 writeln!(f)?;
@@ -312,7 +322,7 @@ impl<T: ColumnType> std::fmt::Display for Record<T> {
                         f,
                         " retry {} backoff {}",
                         retry.attempts,
-                        humantime::format_duration(retry.backoff)
+                        format_duration(retry.backoff)
                     )?;
                 }
                 writeln!(f, "\n{command}")?;
@@ -322,7 +332,7 @@ impl<T: ColumnType> std::fmt::Display for Record<T> {
                 Ok(())
             }
             Record::Sleep { loc: _, duration } => {
-                write!(f, "sleep {}", humantime::format_duration(*duration))
+                write!(f, "sleep {}", format_duration(*duration))
             }
             Record::Subtest { loc: _, name } => {
                 write!(f, "subtest {name}")
